@@ -138,3 +138,133 @@ func (g *Gen) RandTargets(max int) []string {
 	n := 1 + g.pick(max)
 	return all[:n]
 }
+
+// hasPrefixPath reports whether q is an element-wise prefix of p.
+func hasPrefixPath(p, q Path) bool {
+	if len(q) > len(p) {
+		return false
+	}
+	return Path(p[:len(q)]).K() == q.K()
+}
+
+// LadderScenario draws a history of small sequential Sets piled onto one deep leaf path ("focus"): rounds of
+// (populate) -> deletes of several of its ancestors, outer to inner, inner to outer or shuffled -> re-creation of the leaf
+// or of a sibling -> a commit that does not touch the sub-tree. Nested tombstones, re-creation beneath them and the
+// pruning done by later unrelated commits are what such histories exercise; purely random histories almost never line
+// these steps up.
+func (g *Gen) LadderScenario(target string, maxSets int) []ClientOp {
+	g.SetFocus(0)
+	f := g.focus
+	var ops []ClientOp
+	add := func(mops ...MOp) {
+		wait := len(ops) - 1
+		if g.chance(1, 6) {
+			wait = -1 // in flight together with its predecessor (the log order still decides)
+		}
+		ops = append(ops, ClientOp{Kind: "set", WaitFor: wait, Async: g.chance(1, 3), Prefix: g.chance(1, 3), Targets: map[string][]MOp{target: dedupOps(mops)}})
+	}
+	leafOp := func() MOp { return MOp{P: append(Path{}, f...), V: g.RandValue(g.focusTyp, f)} }
+	sibling := func() (MOp, bool) {
+		for i := 0; i < 20; i++ {
+			p, typ := g.RandLeafPath(false)
+			if len(p) >= 2 && hasPrefixPath(p, f[:len(f)-1]) && p.K() != f.K() {
+				return MOp{P: p, V: g.RandValue(typ, p)}, true
+			}
+			// a leaf beneath the same top-level ancestors but another branch
+			if len(p) >= 2 && hasPrefixPath(p, f[:1]) && !hasPrefixPath(p, f[:len(f)-1]) && g.chance(1, 4) {
+				return MOp{P: p, V: g.RandValue(typ, p)}, true
+			}
+		}
+		return MOp{}, false
+	}
+	unrelated := func(outer int) MOp {
+		for {
+			p, typ := g.RandLeafPath(false)
+			if hasPrefixPath(p, f[:outer]) {
+				continue
+			}
+			if g.chance(1, 2) && hasPrefixPath(p, f[:1]) {
+				continue
+			}
+			return MOp{P: p, V: g.RandValue(typ, p)}
+		}
+	}
+	rounds := 1 + g.pick(3)
+	for r := 0; r < rounds && len(ops) < maxSets; r++ {
+		if g.chance(1, 2) {
+			m := []MOp{leafOp()}
+			if sb, ok := sibling(); ok && g.chance(1, 2) {
+				m = append(m, sb)
+			}
+			add(m...)
+		}
+		// deletes of a subset of the ancestors (depths 1..len-1), sometimes of the leaf itself
+		var depths []int
+		for d := 1; d < len(f); d++ {
+			if g.chance(2, 3) {
+				depths = append(depths, d)
+			}
+		}
+		if len(depths) == 0 {
+			depths = []int{1 + g.pick(len(f)-1)}
+		}
+		if g.chance(1, 5) {
+			depths = append(depths, len(f))
+		}
+		switch g.pick(10) {
+		case 0, 1, 2: // inner to outer
+			for i, j := 0, len(depths)-1; i < j; i, j = i+1, j-1 {
+				depths[i], depths[j] = depths[j], depths[i]
+			}
+		case 3, 4: // shuffled
+			g.R.Shuffle(len(depths), func(i, j int) { depths[i], depths[j] = depths[j], depths[i] })
+		}
+		outer := len(f)
+		for i := 0; i < len(depths); i++ {
+			d := depths[i]
+			if d < outer {
+				outer = d
+			}
+			m := []MOp{{Del: true, P: append(Path{}, f[:d]...)}}
+			if i+1 < len(depths) && g.chance(1, 6) {
+				i++
+				m = append(m, MOp{Del: true, P: append(Path{}, f[:depths[i]]...)})
+				if depths[i] < outer {
+					outer = depths[i]
+				}
+			}
+			if g.chance(1, 8) {
+				m = append(m, unrelated(outer))
+			}
+			add(m...)
+		}
+		// re-creation
+		switch g.pick(10) {
+		case 0, 1: // sibling only
+			if sb, ok := sibling(); ok {
+				add(sb)
+			} else {
+				add(leafOp())
+			}
+		case 2: // both
+			m := []MOp{leafOp()}
+			if sb, ok := sibling(); ok {
+				m = append(m, sb)
+			}
+			add(m...)
+		case 3: // nothing re-created in this round
+		default:
+			add(leafOp())
+		}
+		if g.chance(4, 5) {
+			add(unrelated(outer))
+		}
+		if g.chance(1, 4) {
+			ops = append(ops, ClientOp{Kind: "rollback", WaitFor: len(ops) - 1, Of: len(ops) - 1})
+		}
+	}
+	if len(ops) > maxSets {
+		ops = ops[:maxSets]
+	}
+	return ops
+}
